@@ -199,11 +199,21 @@ def gen(seed, profile='general', big=False):
                                    'compute_bandwidth': rng.choice([1, 2, 5])}
         else:
             machines['m%d' % i] = {'flops': f0, 'compute_bandwidth': b0}
-    ref = machines['m0']
+    if rng.random() < P.get('frac_speed', 0.06):
+        # machine speeds / bandwidths that are not whole numbers
+        for m_ in machines.values():
+            m_['flops'] = rng.choice([0.1, 0.2, 0.4, 2.5])
+            if rng.random() < 0.5:
+                m_['compute_bandwidth'] = rng.choice([0.1, 0.4, 0.5])
+    ref = dict(machines['m0'])
     cpu_ref, bw_ref = ref['flops'] * k, ref['compute_bandwidth'] * k
     if rng.random() < P.get('numeric_ids', 0.12):
         # purely numeric machine names, not zero-based (legal: ids are dictionary keys of the configuration)
         machines = {str(i + 1): machines['m%d' % i] for i in range(nm)}
+    elif rng.random() < P.get('prefix_ids', 0.1):
+        # names of which one is a prefix of another (m1, m10, m11, ...)
+        pn = ['m1', 'm10', 'm11', 'm12', 'm100', 'm101', 'm13', 'm14']
+        machines = {pn[i]: machines['m%d' % i] for i in range(nm)}
     machine_order = None
     if nm > 1 and rng.random() < P.get('shuffle_machines', 0.25):
         # the configuration need not list the machines in name order
@@ -262,6 +272,11 @@ def gen(seed, profile='general', big=False):
                     'ingest_demand': rng.randint(1, max_ingest),
                     'wf': i})
         t = max(t, start + dur)
+    if rng.random() < P.get('wf_bounds', 0.1):
+        # optional per-observation workflow resource bounds: legal, parsed, absent from the shipped configurations
+        o = rng.choice(obs)
+        o['min_workflow_resources'] = 1
+        o['max_workflow_resources'] = rng.randint(1, nm)
     if rng.random() < P.get('zero_rate', 0.06):
         rng.choice(obs)['data_product_rate'] = 0          # an observation that produces no data (legal)
     if pattern == 'crowd':
@@ -379,14 +394,14 @@ def gen(seed, profile='general', big=False):
         faults['delay_model'] = {'prob': rng.choice([0.0, 0.3, 1.0]),
                                  'dist': rng.choice(P.get('dists', ['normal'])),
                                  'degree': rng.choice(['LOW', 'MID', 'HIGH', 'NONE']),
-                                 'seed': rng.choice([20, 0, 1, 7, 12345])}
+                                 'seed': rng.choice([20, 0, 1, 7, 12345]), 'np_seed': rng.random() < 0.3}
     if rng.random() < fk.get('F2', 0):
         if rng.random() < 0.55:
             # proposals that the scheduler must *skip*: the run is expected to complete (C04 under F2)
-            kinds = rng.sample(['busy', 'ingest', 'dup'], rng.randint(1, 3))
+            kinds = rng.sample(['busy', 'ingest', 'dup', 'free'], rng.randint(1, 4))
         else:
             # includes proposals that must be *rejected with an error*: the run aborts at the first one
-            kinds = rng.sample(['busy', 'ingest', 'dup', 'foreign', 'unknown', 'resched'], rng.randint(1, 6))
+            kinds = rng.sample(['busy', 'ingest', 'dup', 'free', 'foreign', 'unknown', 'resched'], rng.randint(1, 7))
         faults['adv'] = {'seed': rng.randint(0, 10 ** 6), 'rate': rng.choice([0.1, 0.2, 0.35, 0.6]), 'kinds': kinds}
     if rng.random() < fk.get('F3', 0):
         for o in obs:
@@ -457,7 +472,7 @@ PROFILES = {
               'dur': {1: 25, 2: 30, 3: 25, 4: 20}, 'unit': {'seconds': 90, 'custom': 10},
               'dists': ['normal', 'normal', 'poisson', 'uniform']},
     'units': {'unit': {'custom': 60, 'minutes': 20, 'hours': 20}, 'hetero': 0.0, 'frac_start': 0.0, 'big_units': 0.4, 'zero_rate': 0.0,
-              'frac_rate': 0.0,
+              'frac_rate': 0.0, 'frac_speed': 0.0,
               'comp': {1: 40, 2: 30, 3: 20, 4: 10},
               'dur': {1: 40, 2: 35, 3: 25}, 'buffer': {'ample': 95, 'wait': 5},
               'nobs': {1: 45, 2: 40, 3: 15}, 'ntasks': {1: 25, 2: 30, 3: 25, 4: 20},
